@@ -152,6 +152,12 @@ def check_xml_index(case, cc):
     if text is None:
         return
     root = c18.check_document(cc, text, 'rp66v1-xml-index')
+    if root is None and err is None:
+        # the larger the file the likelier one control character somewhere (known finding): the rest of the index is still
+        # compared, on the document with the illegal references replaced (names and values that hold such characters are
+        # not compared, see char_only)
+        root, _bad = c18.parse_document(c18.without_illegal_char_refs(text))
+        cc.cls('xml-index:compared-after-setting-illegal-references-aside', root is not None)
     if root is None or err is not None:
         return
     lfs = root.find('LogicalFiles')
